@@ -16,10 +16,13 @@ import (
 // C11 — the UDP listener hands each datagram to the one connection of its remote.
 // C12 — the listener's socket lives exactly as long as the listener or an accepted conn.
 
+// The remote addresses are related on purpose: a1/a2 share the IP, and a1/b1 have texts that collide once a
+// separator is dropped ("10.0.0.1"+"15" == "10.0.0.11"+"5"), so a table keyed by anything coarser than the
+// full address merges two remotes.
 var udpRemotes = map[string]*net.UDPAddr{
-	"a1": {IP: net.IPv4(10, 0, 0, 1), Port: 1},
-	"a2": {IP: net.IPv4(10, 0, 0, 1), Port: 2},
-	"b1": {IP: net.IPv4(10, 0, 0, 2), Port: 1},
+	"a1": {IP: net.IPv4(10, 0, 0, 1), Port: 15},
+	"a2": {IP: net.IPv4(10, 0, 0, 1), Port: 16},
+	"b1": {IP: net.IPv4(10, 0, 0, 11), Port: 5},
 }
 
 type c11cfg struct {
@@ -423,6 +426,7 @@ type c12cfg struct {
 	lateNew              bool // a datagram from a remote the listener has never seen, racing with Close
 	twoClosers           bool // the listener is closed from two threads at once
 	connTwoClosers       bool // every accepted connection is closed from two threads at once
+	batch                bool // batch I/O enabled: the socket is wrapped and a flush ticker goroutine runs until the wrapper is closed
 	bound                int
 }
 
@@ -446,12 +450,18 @@ func (c c12cfg) name() string {
 	if c.connTwoClosers {
 		s += " +second-concurrent-conn-Close"
 	}
+	if c.batch {
+		s += " +batch-io"
+	}
 	return s
 }
 
 func c12scenario(c c12cfg) *explore.Scenario {
 	sc := &explore.Scenario{Name: c.name(), Bound: c.bound}
 	sc.Cfg.Horizon = 10 * time.Second
+	if c.batch {
+		sc.Cfg.Horizon = 2 * time.Second // the flush ticker (25 ms) stops only when the wrapper is closed
+	}
 	sc.Make = func() (func(), func(*zzvsched.Exec) (string, *explore.Violation)) {
 		var viol *explore.Violation
 		fail := func(sig, format string, a ...any) {
@@ -500,7 +510,11 @@ func c12scenario(c c12cfg) *explore.Scenario {
 		}
 		body := func() {
 			fakenet.Reset()
-			l, err := udp.Listen("udp", &net.UDPAddr{IP: net.IPv4(127, 0, 0, 1), Port: 4000})
+			lc := udp.ListenConfig{}
+			if c.batch {
+				lc.Batch = udp.BatchIOConfig{Enable: true, ReadBatchSize: 2, WriteBatchSize: 2, WriteBatchInterval: 50 * time.Millisecond}
+			}
+			l, err := lc.Listen("udp", &net.UDPAddr{IP: net.IPv4(127, 0, 0, 1), Port: 4000})
 			if err != nil {
 				panic(err)
 			}
@@ -630,6 +644,14 @@ func c12scenario(c c12cfg) *explore.Scenario {
 				return out, viol
 			}
 			if ex.HorizonHit {
+				allClosed := listenerCloseDone
+				for _, x := range conns {
+					allClosed = allClosed && x.closeDone
+				}
+				if c.batch && allClosed {
+					// every Close returned long ago, yet timers of the package keep firing until the horizon
+					return out + " HORIZON", &explore.Violation{Sig: "C12 goroutine-leaked", Msg: c.name() + fmt.Sprintf(": the listener and every accepted connection were closed, yet %v later the package is still active (a goroutine keeps waking on a timer): %v", ex.EndClock, ex.Parked)}
+				}
 				return out + " HORIZON", nil
 			}
 			// everything has been closed by now
@@ -727,6 +749,8 @@ func init() {
 				{accepted: 1, unaccepted: 1, twoClosers: true, bound: b},
 				{accepted: 1, unaccepted: 0, connTwoClosers: true, bound: b},
 				{accepted: 2, unaccepted: 0, connTwoClosers: true, bound: 1},
+				{accepted: 1, unaccepted: 0, batch: true, bound: b},
+				{accepted: 1, unaccepted: 1, pendingAccept: true, batch: true, bound: 1},
 			}
 			if tier == "thorough" {
 				// unbounded (closed by the state cache) for the smallest lifecycles
@@ -741,6 +765,6 @@ func init() {
 			}
 			return out
 		},
-		Rule:        "0-2 accepted and 0-1 unaccepted connections; threads: listener Close (twice, then Accept; optionally from two threads at once), each connection's Close (twice, after a Write; optionally from two threads at once), a pending Accept, a pending Read, a late datagram; every interleaving within the deviation bound; invariant checked at the instant the fake socket is closed and whenever Accept returns a connection: socket closed => listener Close begun and no accepted connection unclosed; at quiescence: socket closed exactly once, no goroutine of package udp left, pending calls unblocked",
+		Rule:        "0-2 accepted and 0-1 unaccepted connections; threads: listener Close (twice, then Accept; optionally from two threads at once), each connection's Close (twice, after a Write; optionally from two threads at once), a pending Accept, a pending Read, a late datagram; two lifecycles with batch I/O enabled (wrapped socket with a flush ticker goroutine that must end with the last Close); every interleaving within the deviation bound; invariant checked at the instant the fake socket is closed and whenever Accept returns a connection: socket closed => listener Close begun and no accepted connection unclosed; at quiescence: socket closed exactly once, no goroutine of package udp left, pending calls unblocked",
 		Assumptions: []string{"that the kernel frees the port when net.UDPConn.Close returns is trusted, not explored"}})
 }
